@@ -799,6 +799,14 @@ func genProgram(t *rapid.T, o Opts) Program {
 	for i := 0; i < n; i++ {
 		g.stmt("", 0)
 	}
+	if g.feats["subinclude"] && g.chance(50, "late_subinclude") {
+		// a further subinclude that is NOT adjacent to the first ones, after a package-level assignment to a
+		// name the subincluded file also sets: where it is evaluated relative to that assignment matters
+		g.feat("non_adjacent_subinclude")
+		k := len(g.defs)
+		g.defs = append(g.defs, fmt.Sprintf("SHARED = \"from late defs %d\"\nLATE_ONLY = [\"late\"]\n", k))
+		g.out = append(g.out, "SHARED = \"from the package\"", fmt.Sprintf("subinclude(\"//defs:DEFS%d\")", k), "AFTER_LATE = SHARED + LATE_ONLY[0]")
+	}
 	if g.chance(60, "final_rule") {
 		g.rule()
 	}
